@@ -312,6 +312,24 @@ def spec_hosting_cost():
     return dict(env=env, requires=lambda it, st: [wf, wfd], ensures=ensures, loops={})
 
 
+
+def spec_getattr():
+    """AgentDef.__getattr__(item): an extra attribute given at construction is readable: the call returns its value and does
+    not raise.  What happens for a name that is not an extra attribute is not part of C31 and is left open."""
+    item = z3.Const("item", ValSort)
+    has = z3.Function("attr_has", ValSort, z3.BoolSort())
+    get = z3.Function("attr_value", ValSort, ValSort)
+
+    def env(it):
+        return {"self": Obj("self", {"_attr": MapV("_attr", has, get)}), "item": item}
+
+    def ensures(it, st, val):
+        if not (isinstance(val, z3.ExprRef) and val.sort() == ValSort):
+            return z3.Not(has(item))
+        return z3.Implies(has(item), val == get(item))
+    return dict(env=env, ensures=ensures, loops={}, raises={n: (lambda it, st: z3.Not(has(item))) for n in ("AttributeError", "KeyError")})
+
+
 # ------------------------------------------------------------------ MessagePassingComputation.on_message / post_msg (loop free)
 
 def _entry3():
@@ -542,6 +560,7 @@ U_TARGETS = {
     "check_param_value[str,values]": ("pydcop.algorithms:check_param_value", lambda: spec_check_param_value("str", True), ["C28"]),
     "check_param_value[str]": ("pydcop.algorithms:check_param_value", lambda: spec_check_param_value("str", False), ["C28"]),
     "AgentDef.route": ("pydcop.dcop.objects:AgentDef.route", spec_route, ["C31"]),
+    "AgentDef.__getattr__": ("pydcop.dcop.objects:AgentDef.__getattr__", spec_getattr, ["C31"]),
     "AgentDef.hosting_cost": ("pydcop.dcop.objects:AgentDef.hosting_cost", spec_hosting_cost, ["C31"]),
     "MessagePassingComputation.on_message": ("pydcop.infrastructure.computations:MessagePassingComputation.on_message", spec_on_message, ["C19"]),
     "MessagePassingComputation.post_msg": ("pydcop.infrastructure.computations:MessagePassingComputation.post_msg", spec_post_msg, ["C19"]),
